@@ -73,8 +73,10 @@ func (c *checker) partB() {
 	r := c.r
 	th := r.Thorough()
 	var beElems []beT
-	for _, n := range []string{"b", "b-", ""} {
-		for _, s := range []string{"s1", "s2", ""} {
+	// ("s1" as a name, "b" as a specification: names are unique among names and specifications among specifications;
+	// a name may well equal another backend's specification)
+	for _, n := range []string{"b", "b-", "", "s1"} {
+		for _, s := range []string{"s1", "s2", "", "b"} {
 			beElems = append(beElems, beT{n, s})
 		}
 	}
